@@ -37,11 +37,12 @@ TEXT = {'text': 'Kernel-checked theorems over Model/Totality.v, which re-express
          'invariant). The model follows the repaired library: F1 new_bech32 (a4bc64e), F2 merge xpub (4b01389), F12 blind with nothing marked (8d5600e), F16 serde builder '
          '(c723f02) and F18 commitments from short slices (838e50c) are fixed, their statements hold for every input and a return of the old behaviour fails '
          'the check. Second round: F17 fee sums (7b7cbe8, saturating), F19 read_uint size (6050d64), and in the exploration half F24 (22d9646), F25 (5c23a02), F26 (b1b3ac3) are fixed too; no '
-         'restricted statement is left. Known findings that remain are inside secp256k1-zkp: F20, F21, F22, F23, F27. Allocation: the C01 decoders re-assembled from instrumented combinators (same decoders by reflexivity) '
+         'restricted statement is left. Third round (src/blind.rs validates before calling secp256k1-zkp): F20 (17278a0), F21 (3c38a91), F22 (8eb1275) fixed. '
+         'Known findings that remain are inside secp256k1-zkp: F23, F27. Allocation: the C01 decoders re-assembled from instrumented combinators (same decoders by reflexivity) '
          'reserve at most 2 MAX_VEC_SIZE + k_tx|input| for a Transaction and 3 MAX_VEC_SIZE + k_block|input| for a Block — bounded, not proportional: 5 bytes '
          'can reserve 4 MB. Every run executes model and implementation on the same cases in debug and release builds under a panic hook and a counting '
          'allocator; the remaining entry points (PSET, blinding, sighash, text parsers) are explored the same way without a model.',
- 'design_ref': 'DESIGN.md section 6, C10; findings F1, F2, F12, F16-F19, F24-F26 (fixed), F20-F23, F27 (recorded) and observation O2 in section 7',
+ 'design_ref': 'DESIGN.md section 6, C10; findings F1, F2, F12, F16-F22, F24-F26 (fixed), F23, F27 (recorded) and observation O2 in section 7',
  'note': 'Trusted: Coq kernel; hand-written model tied to the code by the per-run correspondence check in both profiles; oracles for secp256k1 verdicts; '
          'size_of values and MAX_VEC_SIZE reported by the harness; extraction + OCaml driver audited by in-kernel vm_compute; Rust harness (panic hook, '
          'counting allocator, forked worker). Partial: the entry points without a model are covered by exploration only; allocation made inside dependencies '
